@@ -24,6 +24,8 @@ static bool drive(void *a, int st) {
 static Verdict run(const Case &c) {
     Verdict v;
     World w;
+    br_set_log_tag_null(c.c(5) != 0);                       // cfg[5]: the switch function is handed NULL as its log tag (allowed) instead of a text
+    if (c.c(6) > 0) vp_fill_pattern(-(int)c.c(6));          // cfg[6]: fresh memory looks like stale small records (rows the constructor does not write must not matter)
     const uint64_t base0 = c.c(4) == 1 ? 0 : c.c(4) == 2 ? 500 : 100000;   // cfg[4]: the clock at the start (1, 2: within the first second after start-up, where the seconds clock reads 0)
     vp_set_now_ms(base0);
     void *a = br_init_session();
@@ -65,6 +67,7 @@ static Verdict run(const Case &c) {
         if (timeouts) v.cls("has-timeout");
     }
     br_automata_destroy(a);
+    br_set_log_tag_null(0);
     return v;
 }
 
@@ -75,6 +78,8 @@ static Verdict run(const Case &c) {
 static Verdict run_multi(const Case &c) {
     Verdict v;
     World w;
+    br_set_log_tag_null(c.c(5) != 0);
+    if (c.c(6) > 0) vp_fill_pattern(-(int)c.c(6));
     uint64_t now = (c.c(4) ? 0 : 100000) + (uint64_t)(c.c(2) % 1000);   // cfg[4]: the history starts within the first second of the clock
     vp_set_now_ms(now);
     int k = (int)std::max<int64_t>(1, std::min<int64_t>(c.c(1, 2), 3));
@@ -119,6 +124,7 @@ static Verdict run_multi(const Case &c) {
     }
     for (int i = 0; i < k; i++) br_automata_destroy(a[i]);
     if (mp) br_automata_destroy(mp);
+    br_set_log_tag_null(0);
     if (mp_inputs) v.cls("mapping-engine-active-alongside");
     v.nontrivial = changes >= 2 && k >= 2;
     if (timeouts) v.cls("has-timeout");
@@ -151,7 +157,7 @@ int main(int argc, char **argv) {
                 for (int64_t el : els) {
                     if (a.shard != 0) continue;   // 160 cells: one shard does them all
                     for (int64_t base : {0, 1, 2}) {
-                    Case c; c.cfg = {0, st, e, el, base};
+                    Case c; c.cfg = {0, st, e, el, base, (st + e + (int)base) & 1, (int64_t)((st * 8 + e + base * 32 + (el % 5) * 96) % 128 + (base ? 1 : 0))};
                     CurrentScope scope(c);
                     Verdict v = run(c);
                     ev.note(c.digest(), v.nontrivial && v.ok, [&] { return c.to_text(); });
@@ -165,7 +171,7 @@ int main(int argc, char **argv) {
     }
     if (ok) {
         auto gen = rc::gen::exec([] {
-            Case c; c.cfg = {1};
+            Case c; c.cfg = {1, 0, 0, 0, 0, *gx::pick({0, 0, 1}), *gx::pick({0, 0, 1, 17, 33, 64, 90, 127})};
             int n = *gx::range<int>(1, 40);
             c.ops = *rc::gen::resize(n, rc::gen::container<std::vector<Op>>(rc::gen::exec([] {
                 Op o;
@@ -179,7 +185,7 @@ int main(int argc, char **argv) {
     }
     if (ok) {
         auto gen = rc::gen::exec([] {
-            Case c; c.cfg = {2, *gx::range<int64_t>(1, 3), *gx::range<int64_t>(0, 999), *gx::pick({0, 1, 1}), *gx::pick({0, 0, 0, 1})};
+            Case c; c.cfg = {2, *gx::range<int64_t>(1, 3), *gx::range<int64_t>(0, 999), *gx::pick({0, 1, 1}), *gx::pick({0, 0, 0, 1}), *gx::pick({0, 0, 1}), *gx::pick({0, 0, 1, 9, 33, 64, 90, 127})};
             int n = *gx::range<int>(1, 50);
             c.ops = *rc::gen::resize(n, rc::gen::container<std::vector<Op>>(rc::gen::exec([] {
                 Op o;
